@@ -60,6 +60,9 @@ def run(ck, fb, fbd):
     circulators(ck, fb)
     ranges(ck, fb)
     collectors(ck, fb)
+    from .c15_c16 import sheet_rule
+    ck.rule("C05.sheet", "CellSheetCellIter collects the neighbours across exactly the four halffaces whose orientation is neither the given direction nor opposite_orientation(direction)")
+    sheet_rule(ck, fb, "C05.sheet")
 
 
 # audited exceptions of C05.collect: (class, nesting depth of the loop) -> reason
